@@ -1,6 +1,8 @@
 """Whole client calls of every service family against the model's `callWith` (udsdrv `callw`): the request as transmitted, `send_request` over an arrival
 schedule (response-pending replies, then a final reply of some kind, then junk), the method's interpretation and echo checks - inside and outside
 suppress-positive-response blocks.  This is the correspondence the call-level theorems (Props/C02Call, C03Call, C06Call, C09Call, C11Call) rest on."""
+import random
+
 from . import core
 from .core import Suite, b01, onat, ohx
 
@@ -11,7 +13,48 @@ FINALS = {
     'C06': ['negative', 'negative', 'negative', 'negative_tail', 'good', 'pending_only'],
     'C09': ['good', 'negative', 'silence', 'pending_only', 'good_junk_after'],
     'C11': ['padded', 'padded', 'padded', 'good', 'negative'],
+    'C08': ['negative', 'negative', 'mutated', 'mutated', 'foreign', 'good', 'padded', 'silence', 'negative_tail'],
 }
+
+
+def make_responder(rng, state, k, kind, c):
+    """the scripted ECU of one case: answers the first frame with k response-pending replies at the window edges and a final reply of the given kind"""
+    def responder(p):
+        if 'frame' in state:
+            return []
+        state['frame'] = bytes(p)
+        sid = p[0]
+        t = rng.choice([0, 1, P2 - 1, P2])
+        arr = []
+        for _ in range(k):
+            arr.append((t, bytes([0x7F, sid, 0x78]) + (b'' if rng.random() < 0.8 else b'\xAA')))
+            t += rng.choice([0, 1, P2S // 2, P2S])
+        good = bytes([c.rid]) + c.good
+        if kind in ('good', 'good_junk_after'):
+            arr.append((t, good))
+        elif kind == 'padded':
+            arr.append((t, good + bytes(rng.choice([1, 2, 3, 4, 5, 8, 9, 16]))))
+        elif kind == 'mutated':
+            b = bytearray(good)
+            i = rng.randrange(1, len(b)) if len(b) > 1 else 0
+            b[i] ^= rng.choice([1, 2, 0x10, 0x80, 0xFF])
+            arr.append((t, bytes(b)))
+        elif kind == 'foreign':
+            arr.append((t, bytes([good[0] ^ 0x01]) + good[1:]))
+        elif kind in ('negative', 'negative_tail'):
+            code = rng.choice([0x00, 0x10, 0x11, 0x12, 0x21, 0x22, 0x31, 0x33, 0x7E, 0x7F, 0x77, 0x79, 0xFF, rng.randrange(256)])
+            if code == 0x78:
+                code = 0x79
+            arr.append((t, bytes([0x7F, sid, code]) + (b'\x01\x02' if kind == 'negative_tail' else b'')))
+        elif kind == 'silence':
+            arr.append((t + P2S + P2 + 1, good))          # too late for whatever window is open
+        # 'pending_only': nothing more
+        if kind == 'good_junk_after':
+            arr.append((t + 1, bytes(rng.randrange(256) for _ in range(3))))
+            arr.append((t + 2, good))
+        state['arr'] = arr
+        return arr
+    return responder
 
 
 def suite_callw(ctx, focus):
@@ -28,48 +71,25 @@ def suite_callw(ctx, focus):
             std = extra.pop('standard_version', 2020)
             in_block = focus == 'C09' or rng.random() < 0.15
             spr, wnrc = (True, rng.random() < 0.6) if in_block else (False, False)
-            cfg = cl.Cfg(rt=RT, p2=P2, p2s=P2S, cb=rng.random() < 0.5, std=std, spr=spr, wnrc=wnrc)
-            client, conn = cl.make_client(cfg, extra=extra)
+            sw = None
+            if focus == 'C08':
+                sw = rng.choice([(False, False, False), (False, True, True), (True, False, True), (True, True, False), (False, False, True), (True, False, False), (False, True, False)])
+            cb = rng.random() < 0.5
             k = rng.choice([0, 0, 1, 2, 3])
             kind = rng.choice(FINALS[focus])
+            case_seed = rng.getrandbits(32)
+            base = None
+            if sw is not None:
+                # the same call against the same replies with every switch on: the outcome that the switches may only deliver differently
+                cfg0 = cl.Cfg(rt=RT, p2=P2, p2s=P2S, cb=cb, std=std, spr=spr, wnrc=wnrc)
+                client0, conn0 = cl.make_client(cfg0, extra=dict(extra))
+                conn0.responder = make_responder(random.Random(case_seed), {}, k, kind, c)
+                with cl.Ctxs(client0, cfg0):
+                    base = cl.observe_outer(conn0, lambda: c.invoke(client0))
+            cfg = cl.Cfg(rt=RT, p2=P2, p2s=P2S, cb=cb, std=std, spr=spr, wnrc=wnrc, **({'exc': sw} if sw is not None else {}))
+            client, conn = cl.make_client(cfg, extra=extra)
             state = {}
-
-            def responder(p, state=state, k=k, kind=kind, c=c):
-                if 'frame' in state:
-                    return []
-                state['frame'] = bytes(p)
-                sid = p[0]
-                t = rng.choice([0, 1, P2 - 1, P2])
-                arr = []
-                for _ in range(k):
-                    arr.append((t, bytes([0x7F, sid, 0x78]) + (b'' if rng.random() < 0.8 else b'\xAA')))
-                    t += rng.choice([0, 1, P2S // 2, P2S])
-                good = bytes([c.rid]) + c.good
-                if kind in ('good', 'good_junk_after'):
-                    arr.append((t, good))
-                elif kind == 'padded':
-                    arr.append((t, good + bytes(rng.choice([1, 2, 3, 4, 5, 8, 9, 16]))))
-                elif kind == 'mutated':
-                    b = bytearray(good)
-                    i = rng.randrange(1, len(b)) if len(b) > 1 else 0
-                    b[i] ^= rng.choice([1, 2, 0x10, 0x80, 0xFF])
-                    arr.append((t, bytes(b)))
-                elif kind == 'foreign':
-                    arr.append((t, bytes([good[0] ^ 0x01]) + good[1:]))
-                elif kind in ('negative', 'negative_tail'):
-                    code = rng.choice([0x00, 0x10, 0x11, 0x12, 0x21, 0x22, 0x31, 0x33, 0x7E, 0x7F, 0x77, 0x79, 0xFF, rng.randrange(256)])
-                    if code == 0x78:
-                        code = 0x79
-                    arr.append((t, bytes([0x7F, sid, code]) + (b'\x01\x02' if kind == 'negative_tail' else b'')))
-                elif kind == 'silence':
-                    arr.append((t + P2S + P2 + 1, good))          # too late for whatever window is open
-                # 'pending_only': nothing more
-                if kind == 'good_junk_after':
-                    arr.append((t + 1, bytes(rng.randrange(256) for _ in range(3))))
-                    arr.append((t + 2, good))
-                state['arr'] = arr
-                return arr
-            conn.responder = responder
+            conn.responder = make_responder(random.Random(case_seed), state, k, kind, c)
             with cl.Ctxs(client, cfg):
                 how, verdict, flags, payload, exc, r = cl.observe_outer(conn, lambda: c.invoke(client))
             if 'frame' not in state:
@@ -90,8 +110,29 @@ def suite_callw(ctx, focus):
                 continue
             keys = {kv.split('=')[0] for kv in params.split(' ')}
             line = 'callw %s %s svc=%s%s data=%s arr=%s' % (params, cfg.line(), svc_name, '' if 'sf' in keys else ' sf=%s' % onat(sf), ohx(data), cl.arrivals_str(state['arr']))
-            lines.append(line)
-            impl.append('log=%s out=%s' % (cl.fmt_log(conn.log), got))
+            if sw is not None:
+                from udsoncan import Response as _Resp
+                if how == 'ret' and r is not None and not isinstance(r, _Resp):
+                    continue                # a convenience wrapper that hands back a bare value: nothing of the decorator to compare
+                line += ' sw=%s' % ''.join(b01(x) for x in sw)
+                lines.append(line)
+                impl.append('log=%s how=%s verdict=%s flags=%s' % (cl.fmt_log(conn.log), how, verdict, flags))
+                # the property: the switches change how the outcome is delivered, never the outcome
+                rec8 = {'site': c.site, 'input': line, 'generator': name, 'final': kind, 'switches': list(sw)}
+                cls_ = verdict.split(':')[0]
+                if verdict != base[1]:
+                    s.fail(dict(rec8, observed='%s %s' % (how, verdict), required='verdict %s as with all switches on' % base[1]))
+                elif cls_ in ('negative', 'invalid', 'unexpected'):
+                    on = sw[('negative', 'invalid', 'unexpected').index(cls_)]
+                    if how != ('exc' if on else 'ret'):
+                        s.fail(dict(rec8, observed=how, required='raised iff the switch is on'))
+                    elif payload != base[3] or flags != base[2]:
+                        s.fail(dict(rec8, observed='%s payload %s' % (flags, payload.hex() if payload else payload), required='%s payload %s' % (base[2], base[3].hex() if base[3] else base[3])))
+                elif how != base[0]:
+                    s.fail(dict(rec8, observed=how, required=base[0]))
+            else:
+                lines.append(line)
+                impl.append('log=%s out=%s' % (cl.fmt_log(conn.log), got))
             s.count('%s:%s:%s%s' % (name, kind, got.split(' ')[0].split(':')[0], ':in-block' if spr else ''))
             s.distinct.add(line)
             # the property, read off the implementation
